@@ -153,7 +153,7 @@ func checkC04(p *core.Program, r *core.Report) {
 			r.Bad("R2", key, p.Pos(cs.Pos()), fmt.Sprintf("%s: %s; operand %s is neither constant nor guarded by a comparison on its source", name, spec.why, canon(operand)))
 		}
 	}
-	r.Require("partial_call_sites", nPartial, 10)
+	r.Require("partial_call_sites", nPartial, 5)
 
 	// ---------- R3
 	c04R3(p, r)
@@ -1167,7 +1167,7 @@ func c04R9(p *core.Program, r *core.Report) {
 		}
 		r.Bad("R9", key, p.Pos(cs.Pos()), "Default() of "+canonShort(recv)+" is used without a hasDefault() test on it: for an object without a default this is the object itself, and converting or rendering it again recurses without end (fatal stack overflow, not an error value)")
 	}
-	r.Require("xobject_default_calls", n, 8)
+	r.Require("xobject_default_calls", n, 4)
 }
 
 // ---------------------------------------------------------------------------------------------- R10
